@@ -538,7 +538,7 @@ func (s *Server) handleConnReceiver(module *Module, crd *rsyncwire.CountingReade
 	if err != nil {
 		return fmt.Errorf("OpenRoot(dest=%s): %v", rt.Dest, err)
 	}
-	defer rt.DestRoot.Close()
+	defer rt.CloseWhenDone(rt.DestRoot)
 
 	if !implicitModule {
 		if len(paths) > 1 {
@@ -575,7 +575,7 @@ func (s *Server) handleConnReceiver(module *Module, crd *rsyncwire.CountingReade
 				return err
 			}
 			subRoot = named
-			defer subRoot.Close()
+			defer rt.CloseWhenDone(subRoot)
 			rt.Dest = subReal
 			rt.DestRoot = subRoot
 			if opts.Verbose() {
